@@ -80,7 +80,8 @@ TbClone == /\ TbCall("clone")
 TbEq == /\ TbCall("eq")
         /\ LET e == Rec[l] IN
            IF {e.from, e.h} \cap lost # {} \/ ~({e.from, e.h} \subseteq DOMAIN tbl) THEN TRUE
-           ELSE Require((e.res = 1) = (tbl[e.from] = tbl[e.h]) /\ (tbl[e.from] = tbl[e.h] => e.v = 1), l, "table equality / hash",
+           \* (demanded by no listed property: an observation, not a violation)
+           ELSE Observe((e.res = 1) = (tbl[e.from] = tbl[e.h]) /\ (tbl[e.from] = tbl[e.h] => e.v = 1), l, "table equality / hash",
                         [def |-> E.id, a |-> tbl[e.from], b |-> tbl[e.h], eq |-> e.res, same_hash |-> e.v])
         /\ UNCHANGED <<tbl, lost>> /\ Keep
 TbDefault == Construct("default", LAMBDA e : TFilled(Len(EN), 0))
